@@ -139,7 +139,7 @@ theorem read_written {P : Params} (hc : CodecOk P.codec) (hB : P.B < 2 ^ 24) {n 
   subst hdd
   obtain ⟨hidx, hpos, hle⟩ := h.finv.closedOK _ hd
   have hne : d' ≠ [] := fun he => by simp [he] at hpos
-  obtain ⟨⟨ps, acc, recs, hinv, hrecs⟩, hsets, _, _⟩ := h.winv
+  obtain ⟨⟨ps, acc, recs, _loose, hinv, hrecs⟩, hsets, _, _⟩ := h.winv
   obtain ⟨loc, hset, hrec⟩ := hrecs b hb hfb
   have hhold := hinv.recs _ hrec
   have hslice := BlockWriter.HoldsIn_slice hinv.abs hhold
